@@ -53,7 +53,7 @@ func main() {
 			b := plain
 			b.Opt = o
 			groups = append(groups, group(b, diags))
-			corpus = append(corpus, group(b, []string{"trace", "debug"}))
+			corpus = append(corpus, group(b, []string{"debug"})) // tracing the corpus: default settings only
 		}
 	}
 
@@ -61,6 +61,8 @@ func main() {
 		Modes: modes, Groups: groups, CorpusGroups: corpus, CorpusModes: corpusModes,
 		OutOnly: true, PackSize: 40, ConfirmCap: 2,
 	}
+
+	plan.CorpusTraceModes = []string{"dynamic"}
 
 	if !r.Thorough() {
 		plan.CorpusDirs = pdiff.CoreCorpusDirs
